@@ -4,6 +4,8 @@ import gen as G
 import conv
 
 COQ_IMPORTS = ['Model.DFA', 'Model.NFA', 'Model.Regexp', 'Model.NFAOps', 'Model.GNFA', 'Judge.C06_judge']
+PDA_FREE = True      # no PDA is involved: the recycling pass runs with GambaTools.pda_epsilon_closure_max_iterations = 3
+LOG_SAFE = True      # no printed output is read back: the recycling pass runs with GambaTools.enable_logging = True
 RULE = ('regexps: all trees with <= 4 nodes over {0,1,a,b} (thorough <= 5) and random trees of depth <= 5: regexp_to_nfa (states q{i} coded by i); '
         'DFAs: all total DFAs 2x1, 2x2, 3x1 and random <= 5 states x <= 2 symbols: dfa_to_gnfa (every edge label) and dfa_to_regexp under 4 (quick) / 16 (thorough) PYTHONHASHSEED values (state-elimination order). '
         'Relation: NFA valid, agrees with the proved matcher on all words <= 4 and is language-equal (exact) to the model NFA; regexp language-equal to the DFA for all word lengths (exact: proved regexp->NFA model + '
@@ -35,7 +37,10 @@ def gen(rng, tier):
                             ['+', ['s', 0], ['1']]])
         star = ['*', inner]
         other = G.random_re(rng, rng.randint(1, 2), 2)
-        t = rng.choice([['+', star, other], ['+', other, star], ['.', star, other], ['.', other, star], ['*', ['+', star, other]], ['+', star, ['*', other]]])
+        t = rng.choice([['+', star, other], ['+', other, star], ['.', star, other], ['.', other, star], ['*', ['+', star, other]], ['+', star, ['*', other]],
+                        # the empty word added to a concatenation that starts or ends with a star of a nullable expression (three levels)
+                        ['+', ['1'], ['.', star, other]], ['+', ['.', star, other], ['1']], ['+', ['1'], ['.', other, star]], ['.', ['+', ['1'], star], other],
+                        ['+', ['1'], ['.', star, ['s', 1]]], ['+', ['.', star, ['s', 1]], ['1']]])
         cases.append({'kind': 're', 'r': t})
     for _ in range(150 if quick else 3000):
         t = G.random_re(rng, rng.randint(2, 5), 2)
